@@ -126,9 +126,9 @@ contract(F + "Munkres.__step6", props=["C06"], consts={'DISALLOWED': 'sentinel o
     ensures=["same(result, 4)", "cost_ok(self)",
              "forall(range(self.n), lambda i: same(self.C[i], old(self.C[i])) and same(self.row_covered[i], old(self.row_covered[i])) and same(self.col_covered[i], old(self.col_covered[i])))",
              # the reduced costs change by the dual update exactly: C'[i][j] = C[i][j] + m [row i covered] - m [column j uncovered], m a lower bound of the uncovered cells
-             "exists(reals(), lambda m: forall(range(self.n), lambda i: forall(range(self.n), lambda j: "
-             "   step6_cell(self.C[i][j], old(self.C[i][j]), self.row_covered[i], self.col_covered[j], m)))"
-             "   and forall(range(self.n), lambda i: forall(range(self.n), lambda j: implies(not self.row_covered[i] and not self.col_covered[j], m <= old(self.C[i][j])))))"],
+             # (m is the function's local `minval`, the value __find_smallest returned)
+             "forall(range(self.n), lambda i: forall(range(self.n), lambda j: step6_cell(self.C[i][j], old(self.C[i][j]), self.row_covered[i], self.col_covered[j], minval)))",
+             "forall(range(self.n), lambda i: forall(range(self.n), lambda j: implies(not self.row_covered[i] and not self.col_covered[j], minval <= old(self.C[i][j]))))"],
     modifies=["elems(self.C)"],
     loops={
         "for i in range(self.n)": dict(
